@@ -83,7 +83,8 @@ def configs(draw, dmin=0, dmax=4, custom=0.0, starts=(None, 0, 1, 2), named=Fals
     return cfg
 
 
-KEY_CLASSES = (["empty"] + ["single"] * 2 + ["sparse"] * 5 + ["gradeblock"] * 2 + ["fullcanon", "fullbin"] + ["perm"] * 4)
+KEY_CLASSES = (["empty"] + ["single"] * 2 + ["sparse"] * 5 + ["gradeblock"] * 2 + ["puregrade"] * 3 + ["fullcanon", "fullbin"]
+               + ["perm"] * 4)
 
 
 def canon_sorted(keys):
@@ -104,6 +105,12 @@ def key_tuples(draw, d, classes=None, max_len=None, min_len=0):
         ks = list(canon_sorted(allk))
     elif cls == "fullbin":
         ks = allk
+    elif cls == "puregrade":
+        # a (sub)set of the blades of ONE grade: vectors, bivectors, ... as users build them
+        g = draw(st.integers(0, d))
+        blades = [k for k in canon_sorted(allk) if pc(k) == g]
+        idx = draw(st.lists(st.integers(0, len(blades) - 1), unique=True, min_size=1, max_size=len(blades)))
+        ks = [blades[i] for i in (sorted(idx) if draw(st.integers(0, 3)) else idx)]
     elif cls == "gradeblock":
         gs = draw(st.sets(st.integers(0, d), min_size=1, max_size=d + 1))
         ks = list(canon_sorted(k for k in allk if pc(k) in gs))
